@@ -211,6 +211,9 @@ pub struct Eval {
     pub skipped: bool,
     /// short description of what was observed, for samples
     pub note: String,
+    /// targeted search: how close the observed result is to violating the property (1.0 = at the stated bound);
+    /// 0.0 when the engine defines no score for the case
+    pub score: f64,
 }
 
 impl Eval {
